@@ -35,6 +35,55 @@ CHECKS = {
   design_ref="DESIGN.md §6 C13",
   note="Chip behaviours are those of harness/chipsim (ISO 7816-4 READ BINARY semantics); an error outcome is never a C13 violation.",
   technique="TLA+ spec (ReadFile.tla) model-checked with TLC; traces of the real ReadFile against a chip simulator validated against Trace_ReadFile; direct byte comparison"),
+
+ "C01": dict(
+  category="model_checking",
+  text="PassiveAuth.tla states, over atomic facts about a document and a trust store, the declarative predicate Valid (the property's first sentence), the procedure as built (country pool, hash comparison, per-SignerInfo attribute checks, certificate selection incl. the sole-certificate fall-back, DS and CA extension / validity checks, candidates by key identifier, first success) and Genuine; TLC explores every document within K=3 (quick) / 4 (thorough) single-fact flips of four genuine bases (one / two embedded certificates, cross-signed anchors, card security object, two signer infos) and checks Soundness (accepts => Valid) and Completeness in every state - the flips are exactly the modifications the property's last sentence quantifies over. Binding: ~110 issued scenarios per signature profile (genuine variants, 40 forgeries, probes, master lists) and every-byte mutants of genuine EF.SOD / CardSecurity / DG / anchor bytes are run through the real passiveauth.PassiveAuth / cms.CreateCertPoolFromSignedData; for each input the facts are recomputed from the bytes by the independent verifier and the line (facts, real verdict) is validated against Trace_PassiveAuth: acceptance of a document whose facts do not satisfy Valid is a violation.",
+  design_ref="DESIGN.md §6 C01",
+  note="Facts (signature verifies under key, digests, validity, extensions) come from harness/pki on Go's math/big and hash functions; name chaining and signer EKU are outside the property statement; probes (verdict not fixed by the standard, e.g. the ECDSA curve fall-back) are informational.",
+  technique="TLA+ spec (PassiveAuth.tla) model-checked with TLC over fact flips; issued forgeries and byte mutants run through the real code, facts recomputed independently and validated against Trace_PassiveAuth"),
+ "C09": dict(
+  category="model_checking",
+  text="Same specification as C01, completeness direction: TLC checks Genuine => accepts over the fact space; the issuing PKI generates correctly issued documents over the key-spec matrix (14 covering specs quick, all 149 thorough: RSA PKCS#1 / PSS x sizes x SHA-1..512, ECDSA over P-192..P-521 and brainpool r1 curves, named and explicit) crossed with the validity-irrelevant variants (SID form, LDS v0/v1, indefinite lengths, signing time absent / at the validity limits, extra embedded certificates, cross-signed anchors in both orders, RDN order, string types, card security object) and the genuine scenarios (encodings, master lists); each is run through the real PassiveAuth, facts recomputed independently, the line validated against Trace_PassiveAuth (Genuine and rejected = violation).",
+  design_ref="DESIGN.md §6 C09",
+  note="The crypto matrix is executed, not modelled; known finding: eContent as constructed OCTET STRING.",
+  technique="TLA+ spec (PassiveAuth.tla, Genuine/Completeness) + issued documents over the profile matrix run through the real code and validated against Trace_PassiveAuth"),
+ "C03": dict(
+  category="model_checking",
+  text="SM.tla models terminal (one action per step of DoAPDU / Decode, check by check), chip (9303-11 9.8) and a Dolev-Yao link adversary with labelled moves (alter / withhold command; short, garbage, unprotected, replay of any seen response, cross-session, outer status, DO value, both statuses, delete / duplicate / re-order / extra / forged data objects); TLC checks Authentic, Lockstep, HonestDelivers exhaustively for the intended design (no counter roll-back; 61k states, modulus 16, 3 exchanges, wrap inside the run) and must find the roll-back/replay counterexample for the as-built switch. Every behaviour of the as-built model with <= 2 adversary moves (8.8k quick, 3 exchanges thorough) is replayed byte for byte into the real NfcSession.DoAPDU against the chip simulator for 3DES / AES-128/192/256 and initial counters incl. FF..FD: delivered data / status are compared with what the chip produced for that very command, outcome and counter with the model; plus a single-bit sweep over genuine responses of every shape.",
+  design_ref="DESIGN.md §6 C03",
+  note="Symbolic MAC/encryption in the model; chip side is harness/chipsim; known finding: replay accepted after an unprotected response (deliberate counter roll-back).",
+  technique="TLA+ spec (SM.tla) model-checked with TLC; TLC-enumerated adversary behaviours replayed into NfcSession.DoAPDU against an independent chip; bit-flip sweep"),
+ "C10": dict(
+  category="model_checking",
+  text="SM.tla honest-link invariants (Lockstep, HonestDelivers, across the wrap, any protected status) checked by TLC for the intended and as-built designs; SMCmd.tla specifies the structure of a protected command (class 0C, DO'87'/'85' with padding indicator by INS parity, DO'97' iff Ne, DO'8E', outer Lc/Le via Apdu.tla) for 1036 command shapes (data lengths around block / 255 / 256 / 65535 boundaries, 7 Ne values, odd/even INS, 3DES/AES); every shape is sent through the real DoAPDU inside a 4-exchange fault-free history with random protected statuses: wire bytes are compared with the specified structure, the independent chip must authenticate and decrypt to the intended command, and terminal and chip counters must be equal after every exchange.",
+  design_ref="DESIGN.md §6 C10",
+  note="DO'85' carries the padding indicator as the property states (chipsim option); commands whose protected form exceeds an extended APDU are outside.",
+  technique="TLA+ specs (SM.tla, SMCmd.tla, Apdu.tla) with TLC; specified command structures replayed into DoAPDU against an independent chip"),
+ "C05": dict(
+  category="model_checking",
+  text="Bac.tla models the mutual authentication symbolically with the answer to EXTERNAL AUTHENTICATE coming from the chip, a replay of an earlier run, a forgery under another document's keys, a mutated cryptogram, a key holder not echoing RND.IFD / RND.IC, wrong lengths or an error status, for equal and different terminal / chip MRZs; TLC checks Completeness, Soundness, FailClosed on all 36 scenarios; each is executed (12 / 200 repetitions with fresh randoms) with the real bac.DoBAC against the chip simulator, edge terminal randoms through the randomness hook, and every well-formed zone of Mrz.tla (all layouts, short / extended numbers) plus generated zones is opened with the chip personalised from the SPECIFICATION's MRZ information.",
+  design_ref="DESIGN.md §6 C05",
+  note="Symbolic 3DES/MAC in the model; key derivation oracle is chipsim (checked against 9303-11 Appendix D).",
+  technique="TLA+ spec (Bac.tla, Mrz.tla) with TLC; scenarios replayed into bac.DoBAC against an independent chip"),
+ "C04": dict(
+  category="model_checking",
+  text="Pace.tla models PACE-GM / -CAM with symbolic Diffie-Hellman and 15 deviations (other password, altered nonce / mapping key / agreement key / token / chip authentication data, echoed keys, error status at each step, foreign static key); TLC checks Completeness, FailClosed, CamGated, Agreement, StatusFails and the selection rule over all subsets of advertised infos. Binding: real pace.DoPACE against the chip simulator over parameter ids 8..18 x GM 3DES/AES-128/192/256 and CAM AES x MRZ / CAN passwords, shared secrets with a leading zero octet FORCED by the chip choosing its scalar after seeing the terminal's key, every deviation in several concrete forms (other valid point, bit flip, truncation, empty, 00), and CardAccess files advertising supported entries among DH / IM / unknown ones.",
+  design_ref="DESIGN.md §6 C04",
+  note="Chip side is harness/chipsim (checked against 9303-11 Appendix G); a PACEInfo with a supported OID but RFU parameter id is outside the selection clause.",
+  technique="TLA+ spec (Pace.tla) with TLC; scenario x concrete matrix replayed into pace.DoPACE against an independent chip with forced edge slices"),
+ "C06": dict(
+  category="model_checking",
+  text="ChipAuth.tla models CA v1 with chip strategies genuine / random keys / old session / no session / other key / replayed response / refusal; TLC checks Soundness and Completeness; binding: real chipauth.DoChipAuth after a real BAC against the chip simulator over curves 8..18 x named / explicit parameters x 3DES (announced or inferred -> MSE:Set KAT) / AES-128/192/256 x key-id arrangements (none, 1, 0, two keys), terminal scalars forcing a shared secret with a leading zero octet through the key-generation hook, and every impostor strategy; success requires the chip-side record that the certified private key was used, equal keys and restarted counter and a subsequent read under the new session. (PACE-CAM half: C04.)",
+  design_ref="DESIGN.md §6 C06",
+  note="Chip side is harness/chipsim.",
+  technique="TLA+ spec (ChipAuth.tla) with TLC; strategies x concrete matrix replayed into chipauth.DoChipAuth against an independent chip"),
+ "C07": dict(
+  category="model_checking",
+  text="ActiveAuth.tla models the challenge plumbing (caller-supplied or generated challenge -> wire -> evidence -> offline verification with none / same / different challenge) and response classes; TLC checks Plumbing, Exact, HardFail, Reproduces on all 24 scenarios; binding: real DoActiveAuth / ValidateActiveAuthSignature / Verifier.Verify against the chip simulator's independent ISO 9796-2 signer (moduli 1024..4096 incl. 1029 / 1031 bits, all five trailers) and ECDSA signer (11 curves, plain and DER), with genuine, replayed, impostor and mutated responses (bit flip, truncation, zero, empty, s+n, wrong trailer); validity of the bytes the library saw is decided by the harness' own verifier.",
+  design_ref="DESIGN.md §6 C07",
+  note="The substance (is this byte string a valid signature) is decided by a second implementation, the TLA+ part organises scenarios and the plumbing rule; value-preserving re-encodings get no verdict.",
+  technique="TLA+ spec (ActiveAuth.tla) with TLC; scenarios replayed into the real AA code with an independent signature oracle"),
 }
 PENDING = {}
 
